@@ -70,18 +70,16 @@ theorem spr_rewards_only_from_v20 (P : Params) (b : Block) (s : DB) (h : b.heigh
 theorem spr_only_top100 (db : DB) (entries : List (Option Addr)) (idx : List Nat) (h : sprPass db entries = some idx) :
     ∀ i ∈ idx, ∃ a, (entries.zipIdx.any fun p => p.2 == i && p.1 == some a) = true ∧ a ∈ db.top100 := by
   unfold sprPass at h
-  split at h
-  · cases h
-  · injection h with h
-    subst h
-    intro i hi
-    obtain ⟨p, hp, hpi⟩ := List.mem_map.1 hi
-    obtain ⟨hmem, hcond⟩ := List.mem_filter.1 hp
-    cases hpa : p.1 with
-    | none => rw [hpa] at hcond; cases hcond
-    | some a =>
-      rw [hpa] at hcond
-      refine ⟨a, List.any_eq_true.2 ⟨p, hmem, by simp [hpi, hpa]⟩, by simpa using hcond⟩
+  injection h with h
+  subst h
+  intro i hi
+  obtain ⟨p, hp, hpi⟩ := List.mem_map.1 hi
+  obtain ⟨hmem, hcond⟩ := List.mem_filter.1 hp
+  cases hpa : p.1 with
+  | none => rw [hpa] at hcond; cases hcond
+  | some a =>
+    rw [hpa] at hcond
+    exact ⟨a, List.any_eq_true.2 ⟨p, hmem, by simp [hpi, hpa]⟩, by simpa using hcond⟩
 
 /-- the top-100 list has at most 100 members, all with a positive PEG balance -/
 theorem top100_bounded (db : DB) : db.top100.length ≤ 100 := by
